@@ -168,6 +168,7 @@ def _random_case(rng, maxlen):
         chunks.append(rest[:c2])
         if rest[c2:]:
             chunks.append(rest[c2:])
+    late = False
     r = rng.random()
     if r < 0.25:
         # a later chunk brings a new class with a row
@@ -183,6 +184,7 @@ def _random_case(rng, maxlen):
                      {'t': 'insert', 'kind': 'KL', 'names': None, 'vals': [['i', 8], ['s', '']], 'lex': ['8', "''"]}]
         chunks[rng.randrange(len(chunks))].extend(late_rows[:rng.randint(1, 2)])
         chunks.append([{'t': 'cls', 'kind': 'KL', 'attrs': [['l0', 'INTEGER'], ['l1', 'STRING']]}])
+        late = True
     elif r < 0.52:
         # ... or a row that cannot be populated (a named INSERT with more values than names): every build from then on
         # is rejected while populating the instances — and must leave the loader's statements as they are
@@ -215,6 +217,19 @@ def _random_case(rng, maxlen):
         k = rng.randrange(len(metas))
         cnt = metas[k]['cnt']
         dead = metas[k]['dead']
+        if late and 'KL' in cnt and rng.random() < 0.3:
+            # the attribute list of the class that earlier builds INFER (and later ones find declared) is edited in one
+            # metamodel: no other build, earlier or later, may see it
+            extra += 1
+            m = rng.choice(['append-attr', 'insert-attr', 'delete-attr'])
+            if m == 'append-attr':
+                mut = [m, 'KL', 'x%d' % extra, rng.choice(G.TYPES)]
+            elif m == 'insert-attr':
+                mut = [m, 'KL', rng.randint(0, 3), 'x%d' % extra, rng.choice(G.TYPES)]
+            else:
+                mut = [m, 'KL', rng.choice(['_0', '_1', 'l0', 'l1', 'nope'])]
+            ops.append(['mut', k, mut])
+            continue
         c = rng.choice(classes)
         kind = c['kind']
         names = [a[0] for a in c['attrs']]
